@@ -40,6 +40,9 @@ Pats == { UCat(ULit(SA), UCat(LF1, ULit(SB))),                    \* a\nb
           \* a match that ends with the terminator, then an EMPTY match right where it ended (the only match of that next line)
           UAlt(UCat(ULit(SA), LF1), UCat(ULook("bol"), ULook("eol"))),  \* a\n|^$
           UAlt(UCat(ULit(SA), LF1), URep(ULit(SB), 0, Inf, TRUE)),      \* a\n|b*
+          \* an optional tail that ends in `$` and cannot match when more than 130 bytes follow on the next line - unless the
+          \* text is cut off there (the printers re-find matches with 128 bytes of look-ahead)
+          UCat(ULit(SA), URep(UGrp(UCat(LF1, UCat(URep(UDot, 0, 130, TRUE), ULook("eol"))), FALSE), 0, 1, TRUE)),
           ULit(SA), UCat(ULit(SA), ULit(SB)) }
 
 Opt(ci, word, line, crlf) == [ci |-> ci, smart |-> FALSE, word |-> word, line |-> line, crlf |-> crlf, nul |-> FALSE, inv |-> FALSE, dotall |-> FALSE]
